@@ -45,13 +45,13 @@ TailStep == /\ phase = "put" /\ todo = {}
 Next == PutNext \/ TailStep
 Spec == Init /\ [][Next]_vars
 \* A behaviour names few keys many times: the vector carries each key once (`keys`) and the steps refer to it by position
-\* (0 = no key); the runner expands the references before the replay.
+\* (0 = no key); bit strings are spelt with letters (Dict_Pool!Lt); the runner expands both before the replay.
 KeysIn(h) == UNION {{h[i].k} \cup {h[i].items[j][1] : j \in 1..Len(h[i].items)} : i \in 1..Len(h)} \ {""}
 Compact(h, ks) ==
   LET Idx(k) == IF k = "" THEN 0 ELSE CHOOSE i \in 1..Len(ks) : ks[i] = k IN
-  [kind |-> ty[1], n |-> ty[2], keys |-> ks,
-   steps |-> [i \in 1..Len(h) |-> [op |-> h[i].op, k |-> Idx(h[i].k), v |-> h[i].v,
-                                    items |-> [j \in 1..Len(h[i].items) |-> <<Idx(h[i].items[j][1]), h[i].items[j][2]>>]]]]
+  [kind |-> ty[1], n |-> ty[2], keys |-> [i \in 1..Len(ks) |-> Lt(StrToBits(ks[i]))],
+   steps |-> [i \in 1..Len(h) |-> [op |-> h[i].op, k |-> Idx(h[i].k), v |-> Lt(StrToBits(h[i].v)),
+                                    items |-> [j \in 1..Len(h[i].items) |-> <<Idx(h[i].items[j][1]), Lt(StrToBits(h[i].items[j][2]))>>]]]]
 Emit == phase = "done" => PrintT(<<"VEC", ToJson(Compact(hist, SetToSeq(KeysIn(hist))))>>)
 
 =============================================================================
